@@ -147,4 +147,41 @@ for n in range(1, N + 1):
                         fail(violation="C02: reported missing requirements differ", got=got_missing, want=want_missing, **ctx)
         for c in comps:
             dr.set_enabled(c, True)
-print(json.dumps({"ok": True, "max_components": N, "runs": runs}))
+# ---------------------------------------------------------------- dependency closure: get_dependency_graph == every declared edge reachable from the target
+closures = 0
+for n in range(2, 6):
+    for bits in itertools.product((0, 1), repeat=n * (n - 1) // 2):
+        edges, k = {}, 0
+        for i in range(n):
+            edges[i] = []
+            for j in range(i):
+                if bits[k]:
+                    edges[i].append(j)
+                k += 1
+        comps = []
+        for i in range(n):
+            def body(*args):
+                return 1
+            body.__name__ = body.__qualname__ = "g%d" % i
+            body.__module__ = "verif_closure_%d" % next(_ids)
+            comps.append(component(*[comps[j] for j in edges[i]])(body))
+        target = comps[n - 1]
+        got = dr.get_dependency_graph(target)
+        reach, todo = set(), [n - 1]
+        while todo:
+            x = todo.pop()
+            if x not in reach:
+                reach.add(x)
+                todo.extend(edges[x])
+        want = dict((comps[i], set(comps[j] for j in edges[i])) for i in reach)
+        closures += 1
+        if dict((c, set(d)) for c, d in got.items()) != want:
+            fail(violation="C01: the dependency graph of a target is not the closure of its declared dependencies (an edge or a component is missing)",
+                 edges=edges, target=n - 1, got=dict((comps.index(c), sorted(comps.index(d) for d in ds)) for c, ds in got.items()),
+                 want=dict((comps.index(c), sorted(comps.index(d) for d in ds)) for c, ds in want.items()))
+        order = dr.run_order(dict((c, set(d)) for c, d in got.items()))
+        pos = dict((c, k) for k, c in enumerate(order))
+        for c, ds in want.items():
+            if any(pos[d] > pos[c] for d in ds):
+                fail(violation="C01: the run order puts a component before one of its dependencies", edges=edges)
+print(json.dumps({"ok": True, "max_components": N, "runs": runs, "closure_graphs": closures}))
